@@ -252,4 +252,4 @@ impl<I> FromIterator<I> for MultiZip<I> {
 // verification hook: inert unless built by `cargo kani` (cfg(kani)); see /verif/DESIGN.md
 #[cfg(kani)]
 #[path = "/verif/harness/audio.rs"]
-mod verif_k;
+pub(crate) mod verif_k;
